@@ -241,15 +241,17 @@ fn matchers_part(ctx: &Ctx, res: &mut PartResult, max_set: usize) {
                 res.exhaustive = false;
                 break;
             }
-            for name in &names {
+            for (name, unit_suffix) in names.iter().flat_map(|n| [(n, false), (n, true)]) {
                 if let Some(rp) = &ctx.replay {
-                    if rp["set"] != json!(set) || rp["global"] != json!(global) || rp["name"] != json!(name) {
+                    if rp["set"] != json!(set) || rp["global"] != json!(global) || rp["name"] != json!(name) || rp["unit_suffix"].as_bool().unwrap_or(false) != unit_suffix {
                         continue;
                     }
                 }
                 res.executions += 1;
                 res.transitions += 1;
-                let mut b = PrometheusBuilder::new();
+                // with unit suffixes on and a unit given the family is exposed as <name>_seconds; which buckets apply
+                // (and hence histogram vs summary) is still decided by the name the user wrote
+                let mut b = PrometheusBuilder::new().set_enable_unit_suffix(unit_suffix);
                 for mi in set {
                     // the bucket list identifies the matcher: le = 1000 + id
                     b = b.set_buckets_for_metric(all[*mi].0.clone(), &[1000.0 + all[*mi].1 as f64]).unwrap();
@@ -258,12 +260,15 @@ fn matchers_part(ctx: &Ctx, res: &mut PartResult, max_set: usize) {
                     b = b.set_buckets(&[999.0]).unwrap();
                 }
                 let rec = b.build_recorder();
+                if unit_suffix {
+                    rec.describe_histogram(name.clone().into(), Some(metrics::Unit::Seconds), "d".into());
+                }
                 rec.register_histogram(&Key::from_name(name.clone()), &META).record(1.0);
                 let text = rec.handle().render();
                 let fams = match promtext::parse(&text) {
                     Ok(f) => f,
                     Err(e) => {
-                        res.violation("malformed-exposition", format!("{} in {:?}", e, text), json!({"set": set, "global": global, "name": name}));
+                        res.violation("malformed-exposition", format!("{} in {:?}", e, text), json!({"set": set, "global": global, "name": name, "unit_suffix": unit_suffix}));
                         continue;
                     }
                 };
@@ -289,8 +294,8 @@ fn matchers_part(ctx: &Ctx, res: &mut PartResult, max_set: usize) {
                     }
                 }
                 states.add(&(f.ty.clone(), got.map(|g| g as u64)));
-                let describe = || format!("overrides {:?}{} name {:?}: rendered as {} with bucket {:?}", set.iter().map(|i| format!("{:?}", all[*i].0)).collect::<Vec<_>>(), if global { " + global buckets" } else { "" }, name, f.ty, got);
-                let replay = json!({"set": set, "global": global, "name": name});
+                let describe = || format!("overrides {:?}{}{} name {:?}: rendered as {} with bucket {:?}", set.iter().map(|i| format!("{:?}", all[*i].0)).collect::<Vec<_>>(), if global { " + global buckets" } else { "" }, if unit_suffix { " + unit suffix (seconds)" } else { "" }, name, f.ty, got);
+                let replay = json!({"set": set, "global": global, "name": name, "unit_suffix": unit_suffix});
                 if !may.is_empty() {
                     continue; // unjudged (sanitisation makes a raw non-match a match)
                 }
